@@ -292,7 +292,7 @@ class Spec:
                 x, y = xy
                 if key in ("home", "end"):
                     ps = [i for _, i in rows[y]]
-                    exp_p = min(ps) if key == "home" else max(ps)
+                    cands = [min(ps) if key == "home" else max(ps)]  # (or the start of that combining cluster, below)
                 else:
                     ty = y - 1 if key == "up" else y + 1
                     if ty not in rows or ty < 0:
